@@ -834,6 +834,26 @@ def correspond(run, model, comp, text, tag, class_only=False):
     return ok, io
 
 
+def repeated3000(mm, rng):
+    """yield (name, text): V3000 texts in which one atom line states a property keyword more than once (the readers take the last
+    statement); whatever the reader makes of them, the string emitted for an accepted text has to be a canonical sentence"""
+    L = render3000(mm, rng, wrap80=False).split("\n")
+    ia = [i for i, l in enumerate(L) if l.startswith(V30) and "BEGIN ATOM" in l]
+    ie = [i for i, l in enumerate(L) if l.startswith(V30) and "END ATOM" in l]
+    if not ia or not ie:
+        return
+    cand = [i for i in range(ia[0] + 1, ie[0]) if len(L[i].split()) > 3 and L[i].split()[3] != "*"]
+    if not cand:
+        return
+    for name, tail in (("nonzero_then_zero", rng.choice([" RAD=2 RAD=0", " MASS=13 MASS=0", " RAD=2 MASS=13 RAD=0", " CHG=1 CHG=0", " MASS=2 RAD=1 MASS=0 RAD=0"])),
+                       ("zero_then_nonzero", rng.choice([" RAD=0 RAD=3", " MASS=0 MASS=13", " CHG=0 CHG=-1", " RAD=0 MASS=0 RAD=1 MASS=14"])),
+                       ("two_values", rng.choice([" RAD=1 RAD=2", " MASS=13 MASS=14", " CHG=1 CHG=-1"]))):
+        i = rng.choice(cand)
+        x = list(L)
+        x[i] = x[i].rstrip() + tail
+        yield name, "\n".join(x)
+
+
 # ---------------------------------------------------------------- malformed streams (outcome class only)
 def malformed3000(mm, rng):
     """yield (name, text): V3000 texts broken in one named way"""
@@ -1349,9 +1369,17 @@ def wide_mm(rng, size):
     return m
 
 
-def c01_descriptions(run, model):
-    """C01 at the level of molfile descriptions: one molecule, several V2000 / V3000 texts that differ in atom numbering,
-    bond listing order and bond direction (and spelling) -> one string"""
+def canonical_view(g):
+    """what C04 compares: label -> (element, mass, radical, class), and the edge set"""
+    c = impl.canonicalize_molecule(g)
+    return (sorted((a, d["atomic_number"], d.get("mass", 0), d.get("rad", 0), d["partition"]) for a, d in c.nodes(data=True)),
+            sorted(tuple(sorted(e)) for e in c.edges()))
+
+
+def c01_descriptions(run, model, prop="C01"):
+    """C01 (and, with prop="C04", C04) at the level of molfile descriptions: one molecule, several V2000 / V3000 texts that differ in
+    atom numbering (for V3000 also: arbitrary index numbers, not ascending along the atom block), listing order of atoms and bonds and
+    bond direction -> one string (C01) / one canonical labelled graph (C04)"""
     rng = run.sub_rng("c01/texts")
     sc = scale_of(run)
     t_end = time.time() + (45 if run.tier == "quick" else 600)
@@ -1370,7 +1398,8 @@ def c01_descriptions(run, model):
         run.count("C01_text_atoms:" + size_bucket(mm.n()))
         # C01 varies the numbering of atoms, the listing order of atoms and bonds and the direction of bonds -- nothing else:
         # all renderings of one group use the same format and the same (plain) spelling
-        groups = [[("V3000", render3000(mm, rng))] + [("V3000 renumbered", render3000(mm_permute(mm, rng), rng)) for _ in range(2)]]
+        groups = [[("V3000", render3000(mm, rng))] + [("V3000 renumbered", render3000(mm_permute(mm, rng), rng)) for _ in range(2)]
+                  + [("V3000 renumbered, index numbers not in listing order", render3000(mm_permute(mm, rng), rng, indices=True))]]
         if v2ok(mm):
             groups.append([("V2000", render2000(mm, rng, charge_mode="lines"))] +
                           [("V2000 renumbered", render2000(mm_permute(mm, rng), rng, charge_mode="lines")) for _ in range(2)])
@@ -1378,14 +1407,17 @@ def c01_descriptions(run, model):
             strings = []
             for tag, text in texts:
                 run.evaluations += 1
-                correspond(run, model, "K2" if tag.startswith("V2000") else "K1", text, "C01:" + tag)
+                correspond(run, model, "K2" if tag.startswith("V2000") else "K1", text, prop + ":" + tag)
                 g, err = read_graph(text)
-                strings.append(impl.tucan_of(g) if g is not None else "reader raised " + err)
+                if prop == "C04":
+                    strings.append(canonical_view(g) if g is not None else "reader raised " + err)
+                else:
+                    strings.append(impl.tucan_of(g) if g is not None else "reader raised " + err)
             for (tag, text), s_ in zip(texts[1:], strings[1:]):
                 if s_ != strings[0]:
-                    run.falsifier_hits.append({"property": "C01", "what": "two molfile descriptions of one molecule (%s vs %s: same spelling, other atom numbering / listing order / bond direction) give different strings" % (texts[0][0], tag),
-                                               "key": "C01:text:" + tag, "case": {"kind": "C01-text", "text": texts[0][1], "text_b": text},
-                                               "extra": {"a": strings[0][:300], "b": s_[:300]}})
+                    run.falsifier_hits.append({"property": prop, "what": "two molfile descriptions of one molecule (%s vs %s: same spelling, other atom numbering / listing order / bond direction) give different %s" % (texts[0][0], tag, "canonical labelled graphs" if prop == "C04" else "strings"),
+                                               "key": prop + ":text:" + tag, "case": {"kind": prop + "-text", "text": texts[0][1], "text_b": text},
+                                               "extra": {"a": str(strings[0])[:300], "b": str(s_)[:300]}})
                     break
         texts = groups[0]
         if mm.n() >= 3:
@@ -1489,6 +1521,8 @@ def c05_reader_stream(run, model):
         one("K1", render3000(mm, rng, **random_knobs3(rng)), "render3000")
         for name, text in malformed3000(mm, rng):
             one("K1", text, "malformed3000:" + name)
+        for name, text in repeated3000(mm, rng):
+            one("K1", text, "repeated3000:" + name)
         mm = next(v2)
         one("K2", render2000(mm, rng, **random_knobs2(rng)), "render2000")
         for name, text in malformed2000(mm, rng):
@@ -2129,6 +2163,10 @@ def replay_text(run, model, hit):
     elif kind == "C01-text":
         a, b = tucan_of_text(case["text"]), tucan_of_text(case["text_b"])
         probs = [] if (a == b and a[0] is not None) else ["strings differ: %s / %s" % (str(a)[:200], str(b)[:200])]
+    elif kind == "C04-text":
+        ga, gb = read_graph(case["text"]), read_graph(case["text_b"])
+        va, vb = (canonical_view(ga[0]) if ga[0] is not None else ga[1]), (canonical_view(gb[0]) if gb[0] is not None else gb[1])
+        probs = [] if (va == vb and ga[0] is not None) else ["canonical labelled graphs differ: %s / %s" % (str(va)[:200], str(vb)[:200])]
     elif kind == "C02-text":
         a, b = tucan_of_text(case["text"]), tucan_of_text(case["text_b"])
         probs = ["two different molecules, one string: %s" % str(a[0])[:200]] if (a[0] is not None and a[0] == b[0]) else []
